@@ -24,17 +24,19 @@ func init() {
 			"K-owner — who may write the caches that a restart rebuilds from rows: Index.deletes is (re)assigned only by the loader of 'deleted' rows (before it reads them) or on a freshly allocated Index that is not loaded afterwards; its map is written only by the constructor, the loader and the live updater, and every call of the live updater comes after a successful CommitBatch with a claim taken from mm.deletes; New's success returns are dominated by both loaders or lie in the about-to-reindex branch with a fresh cache; Index.needs/neededBy/readyReindex are written only by the tabled functions, and the in-memory adder is called only from the 'missing' row loader or after the matching 'missing' row was written successfully; Corpus fields are written only by *Corpus methods (or the constructor) that are reachable only from the load entry (scanFromStorage) or the live entry (addBlob); Corpus.deletes is written only by its 'deleted'-row loader, which dominates every success return of scanFromStorage, and by the live updater, every caller of which passes a claim of mm.deletes; Index.corpus is only ever NewCorpusFromStorage(x.s) of the same index and Index.s is never replaced on a live index (one reasoned test hook); mutationMap.deletes is written only by noteDelete. " +
 			"K-delete-row — every mm.noteDelete(cl) is dominated by an mm.Set of a keyDeleted row on the same mm whose key parts are cl.Target(), cl.ClaimDateString(), cl.Blob().BlobRef() in the order kvDeleted reads them (or by a successful call of a function all of whose success returns are so dominated), and every keyDeleted row put into mm is followed on all paths by noteDelete on that mm. " +
 			"K-live — in every caller of Index.commit/Corpus.addBlob (today ReceiveBlob only): addBlob receives the same mutationMap commit wrote, is dominated by commit's success, runs under the index write lock, and every path from a successful commit to a success return passes addBlob unless the corpus is nil; commit applies mm.deletes to the index cache only after CommitBatch succeeded and writes every (k,v) of mm.kv into the batch it commits; rows of a kind the corpus merges are never written to the store behind the corpus's back (direct KeyValue.Set/Delete sites write only non-slurped kinds; one reasoned exception); every success return of addBlob comes after its merge loops over mm.kv and mm.deletes (violated on the current tree by the duplicate-blob early return: a delete claim that arrived before its target is committed twice, the second time with its 'deleted' and 'claim' rows, and the live corpus skips that second mutation map). " +
-			"NOT decided: that the merge functions compute from a row the same state live as at load for every history (e.g. ordering effects, the `building`-only update of hasLegacySHA1, PermanodeMeta caches), equality of query answers for any concrete arrival history or sorted.KeyValue backend, behaviour of out-of-order arrival, contents of rows.",
+			"K-inval — derived live state is invalidated / re-derived when its inputs change. Generation-stamped caches are discovered, not named: a struct field of pkg/index (today lazySortedPermanodes.ofGen) that is compared with or assigned from an integer field of Corpus/Index (today Corpus.gen). (reader, #cache-protocol) a forward abstract interpretation of every function touching the cache fields (callees on the same cache object analysed in context) decides that content which may date from an older generation is returned, stored or passed on only on the stamp==generation edge, that a cache field is rebuilt only from such content, and that the stamp is assigned only the generation itself and only when every cache field it then vouches for was cleared, rebuilt, or is on that edge. (generation, #gen-store) every assignment of the generation on an existing corpus is `itself + positive constant`; its address is never handed out. (writer, #inval:T.f) the set of locations (struct field, or elements of a named map/slice type, of pkg/index and pkg/types/camtypes) read by the functions that compute the cache content is collected over the resolved call structure (static calls, the pnTime functions stored into the cache object, restricted-CHA invokes, callbacks; branches contradicted by constant string arguments such as signerFilter==\"\" are pruned); every write of such a location in a function reachable from Corpus.addBlob (static calls, the corpusMergeFunc dispatch, function parameters such as mutateFileInfo's fn; writes through map/slice parameters are attributed to the argument; sort.*/slices.Sort* count as in-place writes) must, on every path through addBlob that executes it, also pass an increment of the generation: the increment dominates the write in the same function, or every path from the write to a return of that function passes one, or (recursively) this holds at every call site up to addBlob; a callee that increments on all its paths counts as an increment; `go` never does. Both placements (once in addBlob, or in every writer) are accepted; an uncovered writer is reported with function and location. (#inval-outside) a write of such a location in any other module function is allowed only under scanFromStorage; (#load-on-fresh-corpus) scanFromStorage runs only on a Corpus its caller just allocated, which is why the load path needs no increment; (#no-cache-reader) no cache builder is reachable from addBlob/scanFromStorage (undecided otherwise). (#derived) PermanodeMeta fields assigned by restoreInvariants (attr, signer) are derived from the other receiver fields it reads (Claims): on the live path every write of Claims on an existing permanode is followed, on every path to a return with building==false, by a call on the same permanode of a method that writes attr/signer (or a direct assignment); Corpus.building is assigned only by scanFromStorage and false on its success returns. " +
+			"NOT decided: that the merge functions compute from a row the same state live as at load for every history (e.g. ordering effects, the `building`-only update of hasLegacySHA1; that fixupLastClaim's incremental update equals restoreInvariants' full rebuild), that every reader of the caches holds the index lock, that the read set is exact (it is an over-approximation by type: e.g. any FileInfo.Time write counts), generation increments placed in callers of addBlob (reported as uncovered), equality of query answers for any concrete arrival history or sorted.KeyValue backend, behaviour of out-of-order arrival, contents of rows.",
 		RuleDocs: map[string]string{
 			"K-tables":     "H6 table agreement over slurpPrefixes / corpusMergeFunc / written row kinds (+ separators), scan set, live-merge gate and dispatch",
 			"K-owner":      "H5 who-may-write: Index.deletes (+ its map), Index.needs/neededBy/readyReindex, Corpus fields, mutationMap.deletes; open path loads both caches",
 			"K-delete-row": "H2: noteDelete only where the 'deleted' row for the same claim was put into the same mutation map, and vice versa",
 			"K-live":       "H7/H3/H2: addBlob gets the committed mm, after commit success, under the write lock, and merges all of it; commit feeds caches only after CommitBatch; no slurped row kind bypasses commit",
+			"K-inval":      "H2 over the resolved call structure + abstract interpretation: every live write of a location the generation-stamped caches (lazySortedPermanodes, stamp ofGen vs Corpus.gen) are computed from passes a generation increment within addBlob; the caches are served only on the stamp==generation edge and stamped only with what they were built at; the generation only grows; other writers run only on a fresh corpus under scanFromStorage; PermanodeMeta.attr/signer are re-derived after every live write of Claims",
 		},
 		Run:       runC06,
 		DesignRef: "DESIGN.md §4 C06",
-		Technique: "static analysis: table agreement extracted from the package initializer's SSA, who-may-write enumeration over field stores and map updates, dominance on error-nil edges, lockset, value dependence",
-		LevelText: "Decides structural necessary conditions only: the live path and the restart path of the index deletion cache, the dependency maps and the corpus are driven by the same row kinds, the same rows and the same tables, and no other code writes those caches. Does not decide that both paths compute equal state for every arrival history, nor anything about concrete sorted.KeyValue backends.",
+		Technique: "static analysis: table agreement extracted from the package initializer's SSA, who-may-write enumeration over field stores and map updates, dominance on error-nil edges, lockset, value dependence; for K-inval: field read/write sets by type over a resolved call graph (table dispatch, function-valued fields and parameters, callbacks), interprocedural must-pass-through (dominance or post-dominance of a generation increment at each level of the call chain), and a forward dataflow over the cache readers (stamp-valid / may-hold-old-content bits per cache field)",
+		LevelText: "Decides structural necessary conditions only: the live path and the restart path of the index deletion cache, the dependency maps and the corpus are driven by the same row kinds, the same rows and the same tables, and no other code writes those caches. Also decides that the lazily sorted permanode caches cannot outlive a change of anything they are computed from (one generation increment per update that writes an input, caches served only for the current generation) and that the per-permanode attribute caches are brought up to date after every live claim. Does not decide that both paths compute equal state for every arrival history, nor anything about concrete sorted.KeyValue backends.",
 	})
 }
 
@@ -69,6 +71,9 @@ type c06Ctx struct {
 	gSlurp      *ssa.Global
 	gSlurped    *ssa.Global
 	fnTypeOfKey *ssa.Function
+
+	ffCache   map[c06Loc][]*ssa.Function
+	seesCache map[*types.Package]bool
 }
 
 func c06Global(pkg *ssa.Package, name string) *ssa.Global {
@@ -423,6 +428,7 @@ func runC06(p *Program, r *Reporter) {
 	c06RuleOwner(cx)
 	c06RuleDeleteRow(cx)
 	c06RuleLive(cx)
+	c06RuleInval(cx)
 }
 
 // ---------------------------------------------------------------------------
@@ -2247,4 +2253,2156 @@ func (cx *c06Ctx) rowWritesCached() ([]c06RowWrite, []CallSite) {
 		c06RowCache.cx, c06RowCache.writes, c06RowCache.conduits = cx, w, c
 	}
 	return c06RowCache.writes, c06RowCache.conduits
+}
+
+// ---------------------------------------------------------------------------
+// K-inval — generation-stamped caches of derived corpus state
+//
+// A "stamped cache" is a struct of pkg/index one of whose fields (the stamp,
+// today lazySortedPermanodes.ofGen) is compared with / assigned from an integer
+// field of Corpus (the generation, today Corpus.gen). Everything is discovered
+// from those two relations; no names are frozen.
+//
+//   reader side  (#cache-protocol): abstract interpretation of every function
+//                that touches the cache fields: content that may date from an
+//                older generation is used only on the stamp==generation edge,
+//                and the stamp is refreshed only when no such content is kept.
+//   generation   (#gen-store): the generation only ever grows.
+//   writer side  (#inval:T.f): every write, on the live path (reachable from
+//                Corpus.addBlob), of a location that the cache's compute
+//                functions read passes a generation increment somewhere between
+//                addBlob's entry and its return (the whole of addBlob runs under
+//                the index write lock, K-live) — must-pass-through over the
+//                resolved call structure.
+//   load side    (#load-on-fresh-corpus, #inval-load:…): the other writers run
+//                only under scanFromStorage, on a corpus that was just allocated.
+
+type c06Loc struct {
+	typ   *types.Named
+	field string // field name; "[]" = elements of a named map/slice type; "*" = the whole struct
+}
+
+func (l c06Loc) String() string { return l.typ.Obj().Name() + "." + l.field }
+
+// inScope: types whose fields make up corpus state (declared in pkg/index or pkg/types/camtypes).
+func c06InScope(n *types.Named) bool {
+	if n == nil || n.Obj().Pkg() == nil {
+		return false
+	}
+	rel := RelPkg(n.Obj().Pkg())
+	return rel == c06Rel || rel == "pkg/types/camtypes"
+}
+
+func c06FnName(fn *ssa.Function) string {
+	if fn == nil {
+		return "?"
+	}
+	if fn.Pkg == nil && fn.Parent() == nil {
+		return strings.ReplaceAll(fn.String(), modPrefix, "")
+	}
+	return FuncKey(fn)
+}
+
+// c06NamedRef: t is an in-scope named map or slice type.
+func c06NamedRef(t types.Type) *types.Named {
+	n, _ := t.(*types.Named)
+	if n == nil || !c06InScope(n) {
+		return nil
+	}
+	switch n.Underlying().(type) {
+	case *types.Map, *types.Slice:
+		return n
+	}
+	return nil
+}
+
+// ---- roots of a reference value
+
+type c06RootSet struct {
+	locs    []c06Loc
+	params  []*ssa.Parameter
+	fresh   bool   // may be an object allocated in the function itself
+	unknown string // non-empty: a shape the walk cannot follow
+}
+
+func (rs *c06RootSet) addLoc(l c06Loc) {
+	for _, x := range rs.locs {
+		if x == l {
+			return
+		}
+	}
+	rs.locs = append(rs.locs, l)
+}
+
+// c06Roots walks back from a reference (map, slice, pointer) to the struct
+// fields / named containers / parameters it may have been obtained from.
+func c06Roots(v ssa.Value) *c06RootSet { return c06RootsN(v, 0) }
+
+// c06RootsN: nest counts how many module calls deep the walk already is (bound 4).
+func c06RootsN(v ssa.Value, nest int) *c06RootSet {
+	rs := &c06RootSet{}
+	if nest > 4 {
+		rs.unknown = "reference returned through a call chain too deep to follow"
+		return rs
+	}
+	seen := map[ssa.Value]bool{}
+	var walk func(v ssa.Value, depth int)
+	walk = func(v ssa.Value, depth int) {
+		if v == nil || seen[v] {
+			return
+		}
+		if depth > 40 {
+			rs.unknown = "reference chain too deep"
+			return
+		}
+		seen[v] = true
+		if n := c06NamedRef(v.Type()); n != nil {
+			rs.addLoc(c06Loc{n, "[]"})
+		}
+		switch x := v.(type) {
+		case *ssa.ChangeType:
+			walk(x.X, depth+1)
+		case *ssa.Convert:
+			walk(x.X, depth+1)
+		case *ssa.MakeInterface:
+			walk(x.X, depth+1)
+		case *ssa.ChangeInterface:
+			walk(x.X, depth+1)
+		case *ssa.TypeAssert:
+			walk(x.X, depth+1)
+		case *ssa.SliceToArrayPointer:
+			walk(x.X, depth+1)
+		case *ssa.UnOp:
+			if x.Op != token.MUL {
+				rs.unknown = "unary " + x.Op.String()
+				return
+			}
+			switch a := x.X.(type) {
+			case *ssa.FieldAddr:
+				if n := NamedOf(a.X.Type()); n != nil && c06InScope(n) {
+					rs.addLoc(c06Loc{n, fieldName(a.X.Type(), a.Field)})
+				} else {
+					walk(a.X, depth+1)
+				}
+			case *ssa.IndexAddr:
+				walk(a.X, depth+1)
+			case *ssa.Global:
+				// package-level state is not corpus state
+			default:
+				if cell, ok := varOf(x.X); ok {
+					if al, isAl := cell.(*ssa.Alloc); isAl {
+						sts := storesTo(al)
+						if len(sts) == 0 {
+							rs.fresh = true
+						}
+						for _, st := range sts {
+							walk(st.Val, depth+1)
+						}
+						return
+					}
+				}
+				// load through a pointer value: *p
+				walk(x.X, depth+1)
+			}
+		case *ssa.Field:
+			if n := NamedOf(x.X.Type()); n != nil && c06InScope(n) {
+				rs.addLoc(c06Loc{n, fieldName(x.X.Type(), x.Field)})
+			} else {
+				walk(x.X, depth+1)
+			}
+		case *ssa.FieldAddr:
+			// a pointer into a struct: &x.f
+			if n := NamedOf(x.X.Type()); n != nil && c06InScope(n) {
+				rs.addLoc(c06Loc{n, fieldName(x.X.Type(), x.Field)})
+			} else {
+				walk(x.X, depth+1)
+			}
+		case *ssa.IndexAddr:
+			walk(x.X, depth+1)
+		case *ssa.Lookup:
+			walk(x.X, depth+1)
+		case *ssa.Index:
+			walk(x.X, depth+1)
+		case *ssa.Slice:
+			walk(x.X, depth+1)
+		case *ssa.Phi:
+			for _, e := range x.Edges {
+				walk(e, depth+1)
+			}
+		case *ssa.Extract:
+			switch t := x.Tuple.(type) {
+			case *ssa.Lookup:
+				walk(t.X, depth+1)
+			case *ssa.TypeAssert:
+				walk(t.X, depth+1)
+			case *ssa.Next:
+				if rg, ok := t.Iter.(*ssa.Range); ok {
+					walk(rg.X, depth+1)
+				}
+			case *ssa.Call:
+				walk(t, depth+1)
+			default:
+				rs.unknown = "tuple of " + fmt.Sprintf("%T", x.Tuple)
+			}
+		case *ssa.Call:
+			if bi, ok := x.Call.Value.(*ssa.Builtin); ok {
+				if bi.Name() == "append" && len(x.Call.Args) > 0 {
+					walk(x.Call.Args[0], depth+1)
+					return
+				}
+				rs.fresh = true
+				return
+			}
+			cs := CallSite{x.Parent(), x}
+			callee := cs.Callee()
+			if callee == nil || callee.Blocks == nil || !InModule(TopFunc(callee)) {
+				// external or unresolved: the result may alias any reference argument
+				for _, a := range cs.Args() {
+					if c06IsRefType(a.Type()) {
+						walk(a, depth+1)
+					}
+				}
+				rs.fresh = true
+				return
+			}
+			// module function: follow what it returns; its parameters map to our arguments
+			args := cs.Args()
+			for _, ri := range Returns(callee) {
+				for _, res := range ri.Results {
+					if !c06IsRefType(res.Type()) {
+						continue
+					}
+					sub := c06RootsN(res, nest+1)
+					for _, l := range sub.locs {
+						rs.addLoc(l)
+					}
+					if sub.fresh {
+						rs.fresh = true
+					}
+					if sub.unknown != "" {
+						rs.unknown = sub.unknown
+					}
+					for _, prm := range sub.params {
+						for i, fp := range callee.Params {
+							if fp == prm && i < len(args) {
+								walk(args[i], depth+1)
+							}
+						}
+					}
+				}
+			}
+		case *ssa.Parameter:
+			rs.params = append(rs.params, x)
+		case *ssa.FreeVar:
+			if b := bindingOf(x); b != nil {
+				walk(b, depth+1)
+			} else {
+				rs.unknown = "captured variable " + x.Name()
+			}
+		case *ssa.Alloc, *ssa.MakeMap, *ssa.MakeSlice, *ssa.MakeClosure, *ssa.MakeChan:
+			rs.fresh = true
+		case *ssa.Const:
+			rs.fresh = true
+		case *ssa.Global:
+		case *ssa.Function:
+		default:
+			rs.unknown = fmt.Sprintf("%T", v)
+		}
+	}
+	walk(v, 0)
+	return rs
+}
+
+func c06IsRefType(t types.Type) bool {
+	switch t.Underlying().(type) {
+	case *types.Map, *types.Slice, *types.Pointer, *types.Interface:
+		return true
+	}
+	return false
+}
+
+// onlyFresh: the reference can only denote an object made in the function.
+func (rs *c06RootSet) onlyFresh() bool {
+	return rs.fresh && len(rs.locs) == 0 && len(rs.params) == 0 && rs.unknown == ""
+}
+
+// ---- call structure
+
+type c06Const struct {
+	state int // 0 unset, 1 constant, 2 unknown
+	val   string
+}
+
+type c06CG struct {
+	cx           *c06Ctx
+	roots        []*ssa.Function
+	funcs        map[*ssa.Function]bool
+	order        []*ssa.Function
+	out          map[ssa.CallInstruction][]*ssa.Function
+	in           map[*ssa.Function][]CallSite
+	unresolved   map[ssa.CallInstruction]string
+	callback     map[ssa.CallInstruction]bool // the edges of this call are functions handed to code we do not follow
+	paramFn      map[*ssa.Parameter]map[*ssa.Function]bool
+	paramUnknown map[*ssa.Parameter]bool
+	env          map[*ssa.Function][]c06Const // constant string parameters (only when prune)
+	prune        bool
+	changed      bool
+}
+
+// c06FieldFuncs: function values stored into func-typed struct fields of in-scope types.
+func (cx *c06Ctx) fieldFuncs() map[c06Loc][]*ssa.Function {
+	if cx.ffCache != nil {
+		return cx.ffCache
+	}
+	out := map[c06Loc][]*ssa.Function{}
+	for _, fn := range cx.fns {
+		for _, b := range fn.Blocks {
+			for _, in := range b.Instrs {
+				st, ok := in.(*ssa.Store)
+				if !ok {
+					continue
+				}
+				n, f, _, ok := c06FieldOf(st.Addr)
+				if !ok || !c06InScope(n) {
+					continue
+				}
+				if _, isSig := st.Val.Type().Underlying().(*types.Signature); !isSig {
+					continue
+				}
+				l := c06Loc{n, f}
+				switch v := originValue(st.Val).(type) {
+				case *ssa.MakeClosure:
+					out[l] = append(out[l], v.Fn.(*ssa.Function))
+				case *ssa.Function:
+					out[l] = append(out[l], v)
+				default:
+					out[l] = append(out[l], nil) // something we cannot name
+				}
+			}
+		}
+	}
+	cx.ffCache = out
+	return out
+}
+
+// scopeImplementers: methods named name of in-scope types implementing iface.
+func (cx *c06Ctx) scopeImplementers(iface *types.Interface, name string) []*ssa.Function {
+	var out []*ssa.Function
+	for _, rel := range []string{c06Rel, "pkg/types/camtypes"} {
+		pk := cx.p.Pkg(rel)
+		if pk == nil || pk.Types == nil {
+			continue
+		}
+		sc := pk.Types.Scope()
+		for _, nm := range sc.Names() {
+			tn, ok := sc.Lookup(nm).(*types.TypeName)
+			if !ok || tn.IsAlias() {
+				continue
+			}
+			n, ok := tn.Type().(*types.Named)
+			if !ok || n.TypeParams().Len() > 0 {
+				continue
+			}
+			if _, isIface := n.Underlying().(*types.Interface); isIface {
+				continue
+			}
+			if types.Implements(n, iface) || types.Implements(types.NewPointer(n), iface) {
+				if f, _ := cx.p.MethodOf(n, name); f != nil && f.Blocks != nil {
+					out = append(out, f)
+				}
+			}
+		}
+	}
+	return out
+}
+
+func (g *c06CG) feasible(b *ssa.BasicBlock) bool {
+	if !g.prune {
+		return true
+	}
+	fn := b.Parent()
+	env := g.env[fn]
+	if env == nil {
+		return true
+	}
+	for _, f := range FactsAt(b) {
+		cond, val := f.Cond, f.Val
+		for {
+			if u, ok := cond.(*ssa.UnOp); ok && u.Op == token.NOT {
+				cond, val = u.X, !val
+				continue
+			}
+			break
+		}
+		bo, ok := cond.(*ssa.BinOp)
+		if !ok || (bo.Op != token.EQL && bo.Op != token.NEQ) {
+			continue
+		}
+		for _, pair := range [][2]ssa.Value{{bo.X, bo.Y}, {bo.Y, bo.X}} {
+			prm, ok := originValue(pair[0]).(*ssa.Parameter)
+			if !ok {
+				continue
+			}
+			cst, ok := ConstString(pair[1])
+			if !ok {
+				continue
+			}
+			for i, fp := range fn.Params {
+				if fp == prm && i < len(env) && env[i].state == 1 {
+					truth := (env[i].val == cst) == (bo.Op == token.EQL)
+					if truth != val {
+						return false
+					}
+				}
+			}
+		}
+	}
+	return true
+}
+
+func (g *c06CG) add(fn *ssa.Function) {
+	if fn == nil || fn.Blocks == nil || g.funcs[fn] {
+		return
+	}
+	g.funcs[fn] = true
+	g.order = append(g.order, fn)
+	g.changed = true
+}
+
+// resolve: the functions a call may run (module code only).
+func (g *c06CG) resolve(c CallSite) (out []*ssa.Function, unresolved string) {
+	cc := c.Common()
+	if _, isBuiltin := cc.Value.(*ssa.Builtin); isBuiltin {
+		return nil, ""
+	}
+	if cc.IsInvoke() {
+		iface, _ := cc.Value.Type().Underlying().(*types.Interface)
+		if iface == nil {
+			return nil, ""
+		}
+		return g.cx.scopeImplementers(iface, cc.Method.Name()), ""
+	}
+	if f := c.Callee(); f != nil {
+		if !g.cx.followed(f) {
+			// external, or a module package that cannot name corpus state (it can touch
+			// it only through c06Mutators or by calling back a function it is given)
+			g.callback[c.Instr] = true
+			return g.callbacks(c), ""
+		}
+		return []*ssa.Function{f}, ""
+	}
+	var fromValue func(v ssa.Value, depth int) ([]*ssa.Function, string)
+	fromValue = func(v ssa.Value, depth int) ([]*ssa.Function, string) {
+		v = originValue(v)
+		if depth > 6 {
+			return nil, "function value too indirect"
+		}
+		switch x := v.(type) {
+		case *ssa.MakeClosure:
+			return []*ssa.Function{x.Fn.(*ssa.Function)}, ""
+		case *ssa.Function:
+			return []*ssa.Function{x}, ""
+		case *ssa.Extract:
+			return fromValue(x.Tuple, depth+1)
+		case *ssa.Lookup:
+			if c06LoadsGlobal(x.X, g.cx.gMerge) {
+				var fs []*ssa.Function
+				for f := range g.cx.mergeImpl {
+					fs = append(fs, f)
+				}
+				sort.Slice(fs, func(i, j int) bool { return c06FnName(fs[i]) < c06FnName(fs[j]) })
+				return fs, ""
+			}
+			return nil, "function looked up in a table other than corpusMergeFunc"
+		case *ssa.Parameter:
+			if g.paramUnknown[x] {
+				return nil, "function parameter " + x.Name() + " receives a value that cannot be named"
+			}
+			var fs []*ssa.Function
+			for f := range g.paramFn[x] {
+				fs = append(fs, f)
+			}
+			sort.Slice(fs, func(i, j int) bool { return c06FnName(fs[i]) < c06FnName(fs[j]) })
+			return fs, "" // empty until a caller is seen; the builder iterates
+		case *ssa.FreeVar:
+			if b := bindingOf(x); b != nil {
+				return fromValue(b, depth+1)
+			}
+			return nil, "captured function variable " + x.Name()
+		case *ssa.UnOp:
+			if x.Op == token.MUL {
+				if n, f, _, ok := c06FieldOf(x.X); ok && c06InScope(n) {
+					var fs []*ssa.Function
+					for _, fv := range g.cx.fieldFuncs()[c06Loc{n, f}] {
+						if fv == nil {
+							return nil, "field " + n.Obj().Name() + "." + f + " is assigned a function that cannot be named"
+						}
+						fs = append(fs, fv)
+					}
+					if len(fs) == 0 {
+						return nil, "no function is ever stored into " + n.Obj().Name() + "." + f
+					}
+					return fs, ""
+				}
+			}
+		}
+		return nil, fmt.Sprintf("dynamic call through %T", v)
+	}
+	return fromValue(cc.Value, 0)
+}
+
+// followed: f has a body and belongs to a package that can name in-scope types
+// (pkg/index, camtypes, or an importer of them), or is a synthetic wrapper.
+func (cx *c06Ctx) followed(f *ssa.Function) bool {
+	if f == nil || f.Blocks == nil {
+		return false
+	}
+	top := TopFunc(f)
+	if top.Pkg == nil {
+		return true // bound-method / method-expression wrapper
+	}
+	if !InModule(top) {
+		return false
+	}
+	return cx.seesScope(top.Pkg.Pkg)
+}
+
+func (cx *c06Ctx) seesScope(pk *types.Package) bool {
+	if cx.seesCache == nil {
+		cx.seesCache = map[*types.Package]bool{}
+	}
+	if v, ok := cx.seesCache[pk]; ok {
+		return v
+	}
+	cx.seesCache[pk] = false // cycles cannot happen; placeholder
+	rel := RelPkg(pk)
+	res := rel == c06Rel || rel == "pkg/types/camtypes"
+	if !res && strings.HasPrefix(pk.Path(), modPrefix) {
+		for _, imp := range pk.Imports() {
+			if cx.seesScope(imp) {
+				res = true
+				break
+			}
+		}
+	}
+	cx.seesCache[pk] = res
+	return res
+}
+
+// callbacks: the followed functions handed as arguments to a call that is not itself followed.
+func (g *c06CG) callbacks(c CallSite) []*ssa.Function {
+	var out []*ssa.Function
+	for _, a := range c.Common().Args {
+		if _, isSig := a.Type().Underlying().(*types.Signature); !isSig {
+			continue
+		}
+		switch v := originValue(a).(type) {
+		case *ssa.MakeClosure:
+			if f := v.Fn.(*ssa.Function); g.cx.followed(f) {
+				out = append(out, f)
+			}
+		case *ssa.Function:
+			if g.cx.followed(v) {
+				out = append(out, v)
+			}
+		}
+	}
+	return out
+}
+
+func (g *c06CG) scan(fn *ssa.Function) {
+	for _, b := range fn.Blocks {
+		if !g.feasible(b) {
+			continue
+		}
+		for _, in := range b.Instrs {
+			ci, ok := in.(ssa.CallInstruction)
+			if !ok {
+				continue
+			}
+			c := CallSite{fn, ci}
+			callees, why := g.resolve(c)
+			if why != "" {
+				if g.unresolved[ci] != why {
+					g.unresolved[ci] = why
+				}
+				continue
+			}
+			delete(g.unresolved, ci)
+			args := c.Args()
+			for _, callee := range callees {
+				has := false
+				for _, x := range g.out[ci] {
+					if x == callee {
+						has = true
+					}
+				}
+				if !has {
+					g.out[ci] = append(g.out[ci], callee)
+					g.in[callee] = append(g.in[callee], c)
+					g.changed = true
+				}
+				g.add(callee)
+				if g.callback[ci] {
+					// called back by code we do not follow: nothing is known about its arguments
+					for _, prm := range callee.Params {
+						if _, isSig := prm.Type().Underlying().(*types.Signature); isSig && !g.paramUnknown[prm] {
+							g.paramUnknown[prm] = true
+							g.changed = true
+						}
+					}
+					if g.prune {
+						g.mergeEnv(fn, callee, nil)
+					}
+					continue
+				}
+				// function-typed and constant arguments
+				for i, prm := range callee.Params {
+					if i >= len(args) {
+						break
+					}
+					if _, isSig := prm.Type().Underlying().(*types.Signature); isSig {
+						switch a := originValue(args[i]).(type) {
+						case *ssa.MakeClosure:
+							g.noteParamFn(prm, a.Fn.(*ssa.Function))
+						case *ssa.Function:
+							g.noteParamFn(prm, a)
+						case *ssa.Parameter:
+							if g.paramUnknown[a] && !g.paramUnknown[prm] {
+								g.paramUnknown[prm] = true
+								g.changed = true
+							}
+							for f := range g.paramFn[a] {
+								g.noteParamFn(prm, f)
+							}
+						default:
+							if !IsNilConst(args[i]) && !g.paramUnknown[prm] {
+								g.paramUnknown[prm] = true
+								g.changed = true
+							}
+						}
+					}
+				}
+				if g.prune {
+					g.mergeEnv(fn, callee, args)
+				}
+			}
+		}
+	}
+}
+
+func (g *c06CG) noteParamFn(prm *ssa.Parameter, f *ssa.Function) {
+	if g.paramFn[prm] == nil {
+		g.paramFn[prm] = map[*ssa.Function]bool{}
+	}
+	if !g.paramFn[prm][f] {
+		g.paramFn[prm][f] = true
+		g.changed = true
+	}
+}
+
+func (g *c06CG) mergeEnv(caller, callee *ssa.Function, args []ssa.Value) {
+	env := g.env[callee]
+	if env == nil {
+		env = make([]c06Const, len(callee.Params))
+		g.env[callee] = env
+	}
+	cenv := g.env[caller]
+	for i := range callee.Params {
+		nv := c06Const{state: 2}
+		if i < len(args) {
+			if s, ok := ConstString(args[i]); ok {
+				nv = c06Const{1, s}
+			} else if prm, ok := originValue(args[i]).(*ssa.Parameter); ok {
+				for j, fp := range caller.Params {
+					if fp == prm && j < len(cenv) && cenv[j].state == 1 {
+						nv = cenv[j]
+					}
+				}
+			}
+		}
+		old := env[i]
+		switch {
+		case old.state == 0:
+			env[i] = nv
+		case old.state == 1 && (nv.state != 1 || nv.val != old.val):
+			env[i] = c06Const{state: 2}
+		}
+		if env[i] != old {
+			g.changed = true
+		}
+	}
+}
+
+func (cx *c06Ctx) buildCG(roots []*ssa.Function, prune bool) *c06CG {
+	g := &c06CG{cx: cx, roots: roots, funcs: map[*ssa.Function]bool{}, out: map[ssa.CallInstruction][]*ssa.Function{},
+		in: map[*ssa.Function][]CallSite{}, unresolved: map[ssa.CallInstruction]string{}, callback: map[ssa.CallInstruction]bool{}, paramFn: map[*ssa.Parameter]map[*ssa.Function]bool{},
+		paramUnknown: map[*ssa.Parameter]bool{}, env: map[*ssa.Function][]c06Const{}, prune: prune}
+	for _, r := range roots {
+		g.add(r)
+		if prune {
+			env := make([]c06Const, len(r.Params))
+			for i := range env {
+				env[i].state = 2
+			}
+			g.env[r] = env
+		}
+	}
+	for iter := 0; iter < 50; iter++ {
+		g.changed = false
+		for i := 0; i < len(g.order); i++ {
+			g.scan(g.order[i])
+		}
+		if !g.changed {
+			break
+		}
+	}
+	return g
+}
+
+// ---- reads
+
+// c06Reads collects the in-scope locations read in the feasible blocks of the graph's functions.
+func (g *c06CG) reads() map[c06Loc][]*ssa.Function {
+	out := map[c06Loc][]*ssa.Function{}
+	note := func(l c06Loc, fn *ssa.Function) {
+		for _, f := range out[l] {
+			if f == fn {
+				return
+			}
+		}
+		out[l] = append(out[l], fn)
+	}
+	for _, fn := range g.order {
+		for _, b := range fn.Blocks {
+			if !g.feasible(b) {
+				continue
+			}
+			for _, in := range b.Instrs {
+				switch x := in.(type) {
+				case *ssa.UnOp:
+					if x.Op == token.MUL {
+						if n, f, _, ok := c06FieldOf(x.X); ok && c06InScope(n) {
+							note(c06Loc{n, f}, fn)
+						}
+					}
+				case *ssa.Field:
+					if n := NamedOf(x.X.Type()); n != nil && c06InScope(n) {
+						note(c06Loc{n, fieldName(x.X.Type(), x.Field)}, fn)
+					}
+				case *ssa.Lookup:
+					if n := c06NamedRef(x.X.Type()); n != nil {
+						note(c06Loc{n, "[]"}, fn)
+					}
+				case *ssa.Index:
+					if n := c06NamedRef(x.X.Type()); n != nil {
+						note(c06Loc{n, "[]"}, fn)
+					}
+				case *ssa.IndexAddr:
+					if n := c06NamedRef(x.X.Type()); n != nil {
+						note(c06Loc{n, "[]"}, fn)
+					}
+				case *ssa.Range:
+					if n := c06NamedRef(x.X.Type()); n != nil {
+						note(c06Loc{n, "[]"}, fn)
+					}
+				case ssa.CallInstruction:
+					// the address of a field handed to a callee may be read there
+					for _, a := range x.Common().Args {
+						if n, f, _, ok := c06FieldOf(a); ok && c06InScope(n) {
+							note(c06Loc{n, f}, fn)
+						}
+					}
+				}
+			}
+		}
+	}
+	return out
+}
+
+// ---- writes
+
+// c06Mutators: functions outside the module that modify an argument in place
+// (index of the argument). Other external functions are taken not to write
+// through the references they receive.
+var c06Mutators = map[string]int{
+	"sort.Sort": 0, "sort.Stable": 0, "sort.Slice": 0, "sort.SliceStable": 0, "sort.Strings": 0, "sort.Ints": 0, "sort.Float64s": 0,
+	"slices.Sort": 0, "slices.SortFunc": 0, "slices.SortStableFunc": 0, "slices.Reverse": 0,
+}
+
+func c06ExternalKey(f *ssa.Function) string {
+	if o := f.Origin(); o != nil {
+		f = o
+	}
+	if f.Pkg == nil || f.Signature.Recv() != nil {
+		return ""
+	}
+	return f.Pkg.Pkg.Path() + "." + f.Name()
+}
+
+type c06WSite struct {
+	fn   *ssa.Function
+	in   ssa.Instruction
+	loc  c06Loc
+	how  string
+	undc string // non-empty: the written reference could not be followed
+}
+
+// c06WriteSites enumerates the writes to in-scope state in fns. g resolves
+// calls (for writes through parameters); pw is the parameter-write summary
+// (filled to a fixpoint by the caller).
+func c06WriteSites(fns []*ssa.Function, g *c06CG, pw map[*ssa.Parameter]bool) (sites []c06WSite, changed bool) {
+	emit := func(fn *ssa.Function, in ssa.Instruction, ref ssa.Value, how string) {
+		rs := c06Roots(ref)
+		for _, l := range rs.locs {
+			sites = append(sites, c06WSite{fn: fn, in: in, loc: l, how: how})
+		}
+		for _, prm := range rs.params {
+			if !pw[prm] {
+				pw[prm] = true
+				changed = true
+			}
+		}
+		if rs.unknown != "" {
+			sites = append(sites, c06WSite{fn: fn, in: in, how: how, undc: rs.unknown})
+		}
+	}
+	for _, fn := range fns {
+		for _, b := range fn.Blocks {
+			for _, in := range b.Instrs {
+				switch x := in.(type) {
+				case *ssa.Store:
+					switch a := x.Addr.(type) {
+					case *ssa.FieldAddr:
+						n := NamedOf(a.X.Type())
+						if n == nil || !c06InScope(n) {
+							continue
+						}
+						if c06Roots(a.X).onlyFresh() {
+							continue // initialising an object made here
+						}
+						sites = append(sites, c06WSite{fn: fn, in: in, loc: c06Loc{n, fieldName(a.X.Type(), a.Field)}, how: "assigns"})
+					case *ssa.IndexAddr:
+						emit(fn, in, a.X, "stores an element of")
+					case *ssa.Alloc, *ssa.FreeVar, *ssa.Global:
+						// a variable
+					default:
+						// *p = v through a pointer value
+						if pt, ok := x.Addr.Type().Underlying().(*types.Pointer); ok {
+							if n := NamedOf(pt.Elem()); n != nil && c06InScope(n) {
+								if _, isStruct := n.Underlying().(*types.Struct); isStruct {
+									if !c06Roots(x.Addr).onlyFresh() {
+										sites = append(sites, c06WSite{fn: fn, in: in, loc: c06Loc{n, "*"}, how: "overwrites"})
+									}
+									continue
+								}
+							}
+						}
+						emit(fn, in, x.Addr, "stores through")
+					}
+				case *ssa.MapUpdate:
+					emit(fn, in, x.Map, "updates an entry of")
+				case ssa.CallInstruction:
+					cc := x.Common()
+					if bi, ok := cc.Value.(*ssa.Builtin); ok {
+						switch bi.Name() {
+						case "delete", "clear", "copy":
+							if len(cc.Args) > 0 {
+								emit(fn, in, cc.Args[0], bi.Name()+"s from/into")
+							}
+						}
+						continue
+					}
+					c := CallSite{fn, x}
+					args := c.Args()
+					if f := cc.StaticCallee(); f != nil && (f.Blocks == nil || !InModule(TopFunc(f)) && f.Pkg != nil) {
+						if idx, ok := c06Mutators[c06ExternalKey(f)]; ok && idx < len(args) {
+							emit(fn, in, args[idx], "reorders in place ("+c06ExternalKey(f)+")")
+						}
+					}
+					for _, a := range cc.Args {
+						if n, f, _, ok := c06FieldOf(a); ok && c06InScope(n) {
+							if fa := a.(*ssa.FieldAddr); !c06Roots(fa.X).onlyFresh() {
+								sites = append(sites, c06WSite{fn: fn, in: in, loc: c06Loc{n, f}, how: "hands out the address of"})
+							}
+						}
+					}
+					if g != nil && !g.callback[x] {
+						for _, callee := range g.out[x] {
+							for i, prm := range callee.Params {
+								if pw[prm] && i < len(args) {
+									emit(fn, in, args[i], "passes to "+c06FnName(callee)+", which writes through it,")
+								}
+							}
+						}
+					}
+				}
+			}
+		}
+	}
+	return sites, changed
+}
+
+func c06AllWriteSites(fns []*ssa.Function, g *c06CG) []c06WSite {
+	pw := map[*ssa.Parameter]bool{}
+	var sites []c06WSite
+	for i := 0; i < 20; i++ {
+		var ch bool
+		sites, ch = c06WriteSites(fns, g, pw)
+		if !ch {
+			break
+		}
+	}
+	return sites
+}
+
+// ---- stamped caches: discovery
+
+type c06Stamped struct {
+	typ       *types.Named // the cache struct
+	stamp     string       // its stamp field
+	gen       c06Loc       // the generation field it is compared with / assigned from
+	caches    []string     // the other fields of typ that are assigned on existing objects
+	accessors []*ssa.Function
+}
+
+func c06IsInteger(t types.Type) bool {
+	b, ok := t.Underlying().(*types.Basic)
+	return ok && b.Info()&types.IsInteger != 0
+}
+
+// c06DirectField: v is exactly a load of (or extraction of) field f of named struct T.
+func c06DirectField(v ssa.Value) (c06Loc, ssa.Value, bool) {
+	n, f, base, ok := c06LoadedField(v)
+	if !ok || n == nil {
+		return c06Loc{}, nil, false
+	}
+	return c06Loc{n, f}, base, true
+}
+
+func (cx *c06Ctx) stampedCaches() []*c06Stamped {
+	type pair struct{ stamp, gen c06Loc }
+	found := map[pair]bool{}
+	var order []pair
+	note := func(a, b c06Loc) {
+		// the generation lives in the live structure (Corpus / Index), the stamp elsewhere
+		isOwner := func(l c06Loc) bool { return l.typ == cx.tCorpus || l.typ == cx.tIndex }
+		var pr pair
+		switch {
+		case isOwner(b) && !isOwner(a):
+			pr = pair{a, b}
+		case isOwner(a) && !isOwner(b):
+			pr = pair{b, a}
+		default:
+			return
+		}
+		if RelPkg(pr.stamp.typ.Obj().Pkg()) != c06Rel {
+			return
+		}
+		if !found[pr] {
+			found[pr] = true
+			order = append(order, pr)
+		}
+	}
+	for _, fn := range cx.fns {
+		for _, b := range fn.Blocks {
+			for _, in := range b.Instrs {
+				switch x := in.(type) {
+				case *ssa.BinOp:
+					switch x.Op {
+					case token.EQL, token.NEQ, token.LSS, token.LEQ, token.GTR, token.GEQ:
+					default:
+						continue
+					}
+					if !c06IsInteger(x.X.Type()) {
+						continue
+					}
+					la, _, oka := c06DirectField(x.X)
+					lb, _, okb := c06DirectField(x.Y)
+					if oka && okb && la.typ != lb.typ {
+						note(la, lb)
+					}
+				case *ssa.Store:
+					n, f, _, ok := c06FieldOf(x.Addr)
+					if !ok || !c06IsInteger(x.Val.Type()) {
+						continue
+					}
+					if lb, _, okb := c06DirectField(x.Val); okb && lb.typ != n {
+						note(c06Loc{n, f}, lb)
+					}
+				}
+			}
+		}
+	}
+	var out []*c06Stamped
+	for _, pr := range order {
+		sc := &c06Stamped{typ: pr.stamp.typ, stamp: pr.stamp.field, gen: pr.gen}
+		isCache := map[string]bool{}
+		acc := map[*ssa.Function]bool{}
+		for _, fn := range cx.fns {
+			for _, b := range fn.Blocks {
+				for _, in := range b.Instrs {
+					st, ok := in.(*ssa.Store)
+					if !ok {
+						continue
+					}
+					n, f, base, ok := c06FieldOf(st.Addr)
+					if !ok || n != sc.typ || f == sc.stamp || c06Roots(base).onlyFresh() {
+						continue
+					}
+					if !isCache[f] {
+						isCache[f] = true
+						sc.caches = append(sc.caches, f)
+					}
+				}
+			}
+		}
+		sort.Strings(sc.caches)
+		for _, fn := range cx.fns {
+			for _, b := range fn.Blocks {
+				for _, in := range b.Instrs {
+					fa, ok := in.(*ssa.FieldAddr)
+					if !ok || NamedOf(fa.X.Type()) != sc.typ {
+						continue
+					}
+					f := fieldName(fa.X.Type(), fa.Field)
+					if (f == sc.stamp || isCache[f]) && !c06Roots(fa.X).onlyFresh() && !acc[fn] {
+						acc[fn] = true
+						sc.accessors = append(sc.accessors, fn)
+					}
+				}
+			}
+		}
+		out = append(out, sc)
+	}
+	return out
+}
+
+// ---- reader side: abstract interpretation of the cache protocol
+
+type c06CState struct {
+	reached    bool
+	stampCur   bool   // stamp == generation is known
+	old, fresh uint32 // per cache field: may hold what it held at entry / may hold content built now
+	oldLoads   map[ssa.Value]bool
+	okStamp    map[ssa.Value]bool // stamp loads not followed by a stamp store
+	okCmp      map[ssa.Value]bool // stamp==generation comparisons of such loads
+}
+
+func (s *c06CState) clone() *c06CState {
+	c := &c06CState{reached: s.reached, stampCur: s.stampCur, old: s.old, fresh: s.fresh,
+		oldLoads: map[ssa.Value]bool{}, okStamp: map[ssa.Value]bool{}, okCmp: map[ssa.Value]bool{}}
+	for k := range s.oldLoads {
+		c.oldLoads[k] = true
+	}
+	for k := range s.okStamp {
+		c.okStamp[k] = true
+	}
+	for k := range s.okCmp {
+		c.okCmp[k] = true
+	}
+	return c
+}
+
+// join merges o into s; reports whether s changed.
+func (s *c06CState) join(o *c06CState) bool {
+	if !o.reached {
+		return false
+	}
+	if !s.reached {
+		*s = *o.clone()
+		return true
+	}
+	ch := false
+	if s.stampCur && !o.stampCur {
+		s.stampCur, ch = false, true
+	}
+	if s.old|o.old != s.old {
+		s.old, ch = s.old|o.old, true
+	}
+	if s.fresh|o.fresh != s.fresh {
+		s.fresh, ch = s.fresh|o.fresh, true
+	}
+	for k := range o.oldLoads {
+		if !s.oldLoads[k] {
+			s.oldLoads[k], ch = true, true
+		}
+	}
+	for k := range s.okStamp {
+		if !o.okStamp[k] {
+			delete(s.okStamp, k)
+			ch = true
+		}
+	}
+	for k := range s.okCmp {
+		if !o.okCmp[k] {
+			delete(s.okCmp, k)
+			ch = true
+		}
+	}
+	return ch
+}
+
+type c06Proto struct {
+	cx      *c06Ctx
+	sc      *c06Stamped
+	isAcc   map[*ssa.Function]bool
+	memo    map[string]*c06CState
+	inprog  map[string]bool
+	reports map[*ssa.Function]map[string]token.Pos // message -> a position
+	undec   map[*ssa.Function]string
+	checked map[*ssa.Function]int // contexts analysed
+}
+
+func (pr *c06Proto) report(fn *ssa.Function, pos token.Pos, msg string) {
+	if pr.reports[fn] == nil {
+		pr.reports[fn] = map[string]token.Pos{}
+	}
+	if _, ok := pr.reports[fn][msg]; !ok {
+		pr.reports[fn][msg] = pos
+	}
+}
+
+func (pr *c06Proto) cacheIdx(addr ssa.Value, recv ssa.Value) (idx int, isStamp, ok bool) {
+	n, f, base, isF := c06FieldOf(addr)
+	if !isF || n != pr.sc.typ {
+		return 0, false, false
+	}
+	if !c06SamePlace(base, recv) {
+		return -1, false, true // a field of another cache object
+	}
+	if f == pr.sc.stamp {
+		return 0, true, true
+	}
+	for i, c := range pr.sc.caches {
+		if c == f {
+			return i, false, true
+		}
+	}
+	return 0, false, false
+}
+
+func (pr *c06Proto) isGenLoad(v ssa.Value) bool {
+	l, _, ok := c06DirectField(v)
+	return ok && l == pr.sc.gen
+}
+
+// analyse runs fn from the given entry facts and returns the joined state at its returns.
+func (pr *c06Proto) analyse(fn *ssa.Function, entry *c06CState) *c06CState {
+	key := fmt.Sprintf("%p/%v/%d/%d", fn, entry.stampCur, entry.old, entry.fresh)
+	if r, ok := pr.memo[key]; ok {
+		return r
+	}
+	if pr.inprog[key] {
+		pr.undec[fn] = "recursive use of the cache fields"
+		return entry
+	}
+	pr.inprog[key] = true
+	defer delete(pr.inprog, key)
+	pr.checked[fn]++
+	if len(fn.Params) == 0 || fn.Signature.Recv() == nil || NamedOf(fn.Params[0].Type()) != pr.sc.typ {
+		pr.undec[fn] = "touches the cache fields of " + pr.sc.typ.Obj().Name() + " without being one of its methods: the cache object cannot be followed"
+		pr.memo[key] = entry
+		return entry
+	}
+	recv := ssa.Value(fn.Params[0])
+	resolved := map[*ssa.Return][]ssa.Value{}
+	for _, ri := range Returns(fn) {
+		resolved[ri.Ret] = ri.Results
+	}
+	in := map[*ssa.BasicBlock]*c06CState{}
+	for _, b := range fn.Blocks {
+		in[b] = &c06CState{}
+	}
+	start := entry.clone()
+	start.reached = true
+	start.oldLoads, start.okStamp, start.okCmp = map[ssa.Value]bool{}, map[ssa.Value]bool{}, map[ssa.Value]bool{}
+	in[fn.Blocks[0]].join(start)
+	exit := &c06CState{}
+
+	staleDep := func(st *c06CState, v ssa.Value) bool {
+		if st.stampCur || len(st.oldLoads) == 0 {
+			return false
+		}
+		return DependsOn(v, func(x ssa.Value) bool { return st.oldLoads[x] })
+	}
+	fieldNames := func(mask uint32) string {
+		var out []string
+		for i, c := range pr.sc.caches {
+			if mask&(1<<uint(i)) != 0 {
+				out = append(out, c)
+			}
+		}
+		return strings.Join(out, ", ")
+	}
+	stampName := pr.sc.typ.Obj().Name() + "." + pr.sc.stamp
+	step := func(st *c06CState, instr ssa.Instruction, final bool) {
+		switch x := instr.(type) {
+		case *ssa.UnOp:
+			if x.Op != token.MUL {
+				return
+			}
+			idx, isStamp, ok := pr.cacheIdx(x.X, recv)
+			if !ok {
+				return
+			}
+			if idx < 0 {
+				if final {
+					pr.undec[fn] = "reads the cache fields of another " + pr.sc.typ.Obj().Name() + " than its receiver"
+				}
+				return
+			}
+			if isStamp {
+				st.okStamp[x] = true
+				return
+			}
+			if st.old&(1<<uint(idx)) != 0 {
+				st.oldLoads[x] = true
+			} else {
+				delete(st.oldLoads, x)
+			}
+		case *ssa.BinOp:
+			if x.Op != token.EQL && x.Op != token.NEQ {
+				return
+			}
+			if st.okStamp[originValue(x.X)] && pr.isGenLoad(x.Y) || st.okStamp[originValue(x.Y)] && pr.isGenLoad(x.X) {
+				st.okCmp[x] = true
+			}
+		case *ssa.Store:
+			idx, isStamp, ok := pr.cacheIdx(x.Addr, recv)
+			switch {
+			case ok && idx < 0:
+				if final {
+					pr.undec[fn] = "writes the cache fields of another " + pr.sc.typ.Obj().Name() + " than its receiver"
+				}
+			case ok && isStamp:
+				if final {
+					if !pr.isGenLoad(x.Val) {
+						pr.report(fn, x.Pos(), stampName+" is set to something other than the current "+pr.sc.gen.String()+": a cache built at one generation is stamped with another and is served after a later change")
+					}
+					if st.old != 0 && !st.stampCur {
+						pr.report(fn, x.Pos(), stampName+" is refreshed while "+fieldNames(st.old)+" may still hold content built at an older generation (not on the "+pr.sc.stamp+"=="+pr.sc.gen.field+" edge, not cleared, not rebuilt): that content is served as current from then on")
+					}
+				}
+				st.stampCur = true
+				st.okStamp, st.okCmp = map[ssa.Value]bool{}, map[ssa.Value]bool{}
+			case ok:
+				bit := uint32(1) << uint(idx)
+				if IsNilConst(x.Val) {
+					st.old &^= bit
+					st.fresh &^= bit
+					return
+				}
+				if final && staleDep(st, x.Val) {
+					pr.report(fn, x.Pos(), pr.sc.caches[idx]+" is rebuilt from cache content that may date from an older generation (not on the "+pr.sc.stamp+"=="+pr.sc.gen.field+" edge)")
+				}
+				st.old &^= bit
+				st.fresh |= bit
+			default:
+				if _, isVar := varOf(x.Addr); isVar {
+					return
+				}
+				if final && staleDep(st, x.Val) {
+					pr.report(fn, x.Pos(), "cache content that may date from an older generation is stored away (not on the "+pr.sc.stamp+"=="+pr.sc.gen.field+" edge)")
+				}
+			}
+		case *ssa.Return:
+			if final {
+				for _, res := range resolved[x] {
+					if staleDep(st, res) {
+						pr.report(fn, x.Pos(), "returns cache content that may date from an older generation: the return is not on the "+pr.sc.stamp+"=="+pr.sc.gen.field+" edge and the field was neither cleared nor rebuilt on the way")
+					}
+				}
+			}
+			exit.join(st)
+		case ssa.CallInstruction:
+			cc := x.Common()
+			if bi, ok := cc.Value.(*ssa.Builtin); ok && (bi.Name() == "len" || bi.Name() == "cap") {
+				return
+			}
+			c := CallSite{fn, x}
+			if callee := c.Callee(); callee != nil && pr.isAcc[callee] && !c.IsGo() {
+				args := c.Args()
+				if len(args) == 0 || !c06SamePlace(args[0], recv) {
+					if final {
+						pr.undec[fn] = "calls " + c06FnName(callee) + " on another cache object than its receiver"
+					}
+					return
+				}
+				if c.IsDefer() {
+					if final {
+						pr.undec[fn] = "defers " + c06FnName(callee) + ", which touches the cache fields"
+					}
+					return
+				}
+				res := pr.analyse(callee, st)
+				st.stampCur, st.old, st.fresh = res.stampCur, res.old, res.fresh
+				st.okStamp, st.okCmp = map[ssa.Value]bool{}, map[ssa.Value]bool{}
+				return
+			}
+			if final {
+				for _, a := range cc.Args {
+					if staleDep(st, a) {
+						pr.report(fn, x.Pos(), "cache content that may date from an older generation is handed to "+c.CalleeKey()+" (not on the "+pr.sc.stamp+"=="+pr.sc.gen.field+" edge)")
+					}
+				}
+			}
+		}
+	}
+	flow := func(b *ssa.BasicBlock, final bool) []*c06CState {
+		st := in[b].clone()
+		for _, instr := range b.Instrs {
+			step(st, instr, final)
+		}
+		outs := make([]*c06CState, len(b.Succs))
+		for i := range b.Succs {
+			outs[i] = st.clone()
+		}
+		if ifi, ok := b.Instrs[len(b.Instrs)-1].(*ssa.If); ok && len(b.Succs) == 2 {
+			cond, neg := ifi.Cond, false
+			for {
+				if u, ok := cond.(*ssa.UnOp); ok && u.Op == token.NOT {
+					cond, neg = u.X, !neg
+					continue
+				}
+				break
+			}
+			if bo, ok := cond.(*ssa.BinOp); ok && st.okCmp[bo] {
+				eqEdge := 0
+				if bo.Op == token.NEQ {
+					eqEdge = 1
+				}
+				if neg {
+					eqEdge = 1 - eqEdge
+				}
+				outs[eqEdge].stampCur = true
+			}
+		}
+		return outs
+	}
+	work := []*ssa.BasicBlock{fn.Blocks[0]}
+	for n := 0; len(work) > 0 && n < 10000; n++ {
+		b := work[0]
+		work = work[1:]
+		if !in[b].reached {
+			continue
+		}
+		for i, o := range flow(b, false) {
+			if in[b.Succs[i]].join(o) {
+				work = append(work, b.Succs[i])
+			}
+		}
+	}
+	exit = &c06CState{}
+	for _, b := range fn.Blocks {
+		if in[b].reached {
+			flow(b, true)
+		}
+	}
+	if !exit.reached {
+		exit = entry
+	}
+	pr.memo[key] = exit
+	return exit
+}
+
+// ---- writer side: must-pass-through of a generation increment
+
+type c06Cover struct {
+	cx     *c06Ctx
+	g      *c06CG
+	gen    c06Loc
+	root   *ssa.Function
+	always map[*ssa.Function]bool
+	memo   map[ssa.Instruction]*c06CovRes
+	inprog map[ssa.Instruction]bool
+	nBumps int
+}
+
+type c06CovRes struct {
+	ok  bool
+	why string
+}
+
+// ownerParam: the parameter (possibly captured) of the generation owner's type that base denotes.
+func (cv *c06Cover) ownerParam(base ssa.Value) *ssa.Parameter {
+	v := originValue(base)
+	for i := 0; i < 8; i++ {
+		switch x := v.(type) {
+		case *ssa.Parameter:
+			if NamedOf(x.Type()) == cv.gen.typ {
+				return x
+			}
+			return nil
+		case *ssa.FreeVar:
+			b := bindingOf(x)
+			if b == nil {
+				return nil
+			}
+			v = originValue(b)
+			if u, ok := v.(*ssa.UnOp); ok && u.Op == token.MUL {
+				v = originValue(u)
+			}
+		case *ssa.Alloc:
+			// a parameter spilled because a literal captures it
+			sts := storesTo(x)
+			if len(sts) != 1 {
+				return nil
+			}
+			v = originValue(sts[0].Val)
+		default:
+			return nil
+		}
+	}
+	return nil
+}
+
+// c06GenStore classifies a store to the generation field: increment (by a positive constant) or not.
+func c06GenStore(st *ssa.Store, gen c06Loc) (isGen, isIncr bool, base ssa.Value) {
+	n, f, b, ok := c06FieldOf(st.Addr)
+	if !ok || n != gen.typ || f != gen.field {
+		return false, false, nil
+	}
+	bo, ok := st.Val.(*ssa.BinOp)
+	if !ok || bo.Op != token.ADD {
+		return true, false, b
+	}
+	if bo.Op == token.ADD {
+		if k, isK := ConstInt(bo.Y); isK && k <= 0 {
+			return true, false, b
+		}
+	}
+	for _, pair := range [][2]ssa.Value{{bo.X, bo.Y}, {bo.Y, bo.X}} {
+		l, lb, ok := c06DirectField(pair[0])
+		k, isK := ConstInt(pair[1])
+		if ok && l == gen && isK && k > 0 && c06SamePlace(lb, b) {
+			return true, true, b
+		}
+	}
+	return true, false, b
+}
+
+// c06GenGoesBack: the store assigns a constant, or the old value minus / plus a non-positive constant.
+func c06GenGoesBack(st *ssa.Store, gen c06Loc) bool {
+	if _, isConst := st.Val.(*ssa.Const); isConst {
+		return true
+	}
+	bo, ok := st.Val.(*ssa.BinOp)
+	if !ok {
+		return false
+	}
+	l, _, isField := c06DirectField(bo.X)
+	k, isK := ConstInt(bo.Y)
+	if !isField || l != gen || !isK {
+		return false
+	}
+	return bo.Op == token.SUB && k >= 0 || bo.Op == token.ADD && k <= 0
+}
+
+func (cv *c06Cover) isBump(in ssa.Instruction) bool {
+	switch x := in.(type) {
+	case *ssa.Store:
+		_, incr, base := c06GenStore(x, cv.gen)
+		return incr && cv.ownerParam(base) != nil
+	case *ssa.Go:
+		return false
+	case ssa.CallInstruction:
+		callees := cv.g.out[x]
+		if len(callees) == 0 || cv.g.callback[x] {
+			return false
+		}
+		c := CallSite{x.Parent(), x}
+		args := c.Args()
+		for _, callee := range callees {
+			if !cv.always[callee] {
+				return false
+			}
+			// the callee increments the generation of one of its parameters: it must be our owner
+			okArg := false
+			for i, prm := range callee.Params {
+				if NamedOf(prm.Type()) == cv.gen.typ && i < len(args) && cv.ownerParam(args[i]) != nil {
+					okArg = true
+				}
+			}
+			if !okArg && len(callee.FreeVars) == 0 {
+				return false
+			}
+		}
+		return true
+	}
+	return false
+}
+
+// allPathsPass: every path from (b, idx) to a return passes a bump (panics end a path harmlessly).
+func (cv *c06Cover) allPathsPass(b *ssa.BasicBlock, idx int) bool {
+	seen := map[*ssa.BasicBlock]bool{}
+	var walk func(b *ssa.BasicBlock, from int) bool
+	walk = func(b *ssa.BasicBlock, from int) bool {
+		for i := from; i < len(b.Instrs); i++ {
+			in := b.Instrs[i]
+			if cv.isBump(in) {
+				return true
+			}
+			switch in.(type) {
+			case *ssa.Return:
+				return false
+			case *ssa.Panic:
+				return true
+			}
+		}
+		for _, s := range b.Succs {
+			if seen[s] {
+				continue
+			}
+			seen[s] = true
+			if !walk(s, 0) {
+				return false
+			}
+		}
+		return true
+	}
+	return walk(b, idx)
+}
+
+func (cv *c06Cover) computeAlways() {
+	for {
+		changed := false
+		for _, fn := range cv.g.order {
+			if cv.always[fn] || len(fn.Blocks) == 0 {
+				continue
+			}
+			if cv.allPathsPass(fn.Blocks[0], 0) {
+				cv.always[fn] = true
+				changed = true
+			}
+		}
+		if !changed {
+			return
+		}
+	}
+}
+
+// covered: on every path through the root that executes `in`, a bump is executed too.
+func (cv *c06Cover) covered(in ssa.Instruction) *c06CovRes {
+	if r, ok := cv.memo[in]; ok {
+		return r
+	}
+	if cv.inprog[in] {
+		return &c06CovRes{false, "recursive call chain"}
+	}
+	cv.inprog[in] = true
+	defer delete(cv.inprog, in)
+	fn := in.Parent()
+	res := &c06CovRes{}
+	defer func() { cv.memo[in] = res }()
+	if _, isGo := in.(*ssa.Go); isGo {
+		res.why = "started with `go` in " + c06FnName(fn) + ": runs outside addBlob's critical section"
+		return res
+	}
+	if cv.isBump(in) {
+		res.ok, res.why = true, c06BumpName(in, cv.gen)+" is itself an increment"
+		return res
+	}
+	for _, b := range fn.Blocks {
+		for _, x := range b.Instrs {
+			if x != in && cv.isBump(x) && Precedes(x, in) {
+				res.ok, res.why = true, c06BumpName(x, cv.gen)+" in "+c06FnName(fn)+" precedes it on every path"
+				return res
+			}
+		}
+	}
+	if cv.allPathsPass(in.Block(), instrIndex(in)+1) {
+		res.ok, res.why = true, "every path from it to a return of "+c06FnName(fn)+" passes an increment of "+cv.gen.String()
+		return res
+	}
+	if fn == cv.root {
+		res.why = "no increment of " + cv.gen.String() + " on some path through " + c06FnName(fn)
+		return res
+	}
+	callers := cv.g.in[fn]
+	if len(callers) == 0 {
+		res.why = c06FnName(fn) + " has no resolved caller under " + c06FnName(cv.root)
+		return res
+	}
+	var via []string
+	for _, c := range callers {
+		r := cv.covered(c.Instr)
+		if !r.ok {
+			res.why = "not in " + c06FnName(fn) + "; its caller " + c06FnName(c.Fn) + ": " + r.why
+			return res
+		}
+		via = append(via, c06FnName(c.Fn))
+	}
+	res.ok, res.why = true, "every caller passes an increment ("+strings.Join(c06Dedupe(via), ", ")+")"
+	return res
+}
+
+func c06Dedupe(s []string) []string {
+	seen := map[string]bool{}
+	var out []string
+	for _, x := range s {
+		if !seen[x] {
+			seen[x] = true
+			out = append(out, x)
+		}
+	}
+	return out
+}
+
+func c06BumpName(in ssa.Instruction, gen c06Loc) string {
+	if _, ok := in.(*ssa.Store); ok {
+		return "the increment of " + gen.String()
+	}
+	if ci, ok := in.(ssa.CallInstruction); ok {
+		return "the call of " + (CallSite{in.Parent(), ci}).CalleeKey() + " (which always increments " + gen.String() + ")"
+	}
+	return "an increment"
+}
+
+// ---- the rule
+
+func c06RuleInval(cx *c06Ctx) {
+	const rule = "K-inval"
+	p, r := cx.p, cx.r
+	addBlob := p.Func(c06Rel, "Corpus", "addBlob")
+	scanFn := p.Func(c06Rel, "Corpus", "scanFromStorage")
+	stamped := cx.stampedCaches()
+	if len(stamped) == 0 {
+		r.Undecided(rule, "pkg/index#stamped-caches", p.Pos(addBlob.Pos()), "no struct field of pkg/index is compared with or assigned from an integer field of Corpus/Index any more: the generation stamp that invalidated the sorted-permanode caches is gone or takes a form this rule cannot follow (e.g. sync/atomic), and the rule has nothing to anchor on")
+		r.Floor(rule, 20)
+		return
+	}
+	live := cx.buildCG([]*ssa.Function{addBlob}, false)
+	load := cx.buildCG([]*ssa.Function{scanFn}, false)
+	// every module function that can name corpus state (test-support packages excluded)
+	var scopeFns []*ssa.Function
+	for _, fn := range p.AllFuncs {
+		top := TopFunc(fn)
+		if top.Pkg == nil || IsTestSupportPkg(RelPkg(top.Pkg.Pkg)) || !cx.followed(fn) {
+			continue
+		}
+		scopeFns = append(scopeFns, fn)
+	}
+	all := cx.buildCG(scopeFns, false)
+	sites := c06AllWriteSites(all.order, all)
+	n := 0
+
+	for _, sc := range stamped {
+		tname := sc.typ.Obj().Name()
+		isAcc := map[*ssa.Function]bool{}
+		for _, f := range sc.accessors {
+			isAcc[f] = true
+		}
+		if len(sc.caches) == 0 || len(sc.accessors) == 0 {
+			r.Undecided(rule, "pkg/index."+tname+"#cache-fields", p.Pos(addBlob.Pos()), tname+"."+sc.stamp+" is related to "+sc.gen.String()+" but no cache field of "+tname+" is assigned outside its constructor")
+			continue
+		}
+
+		// (R) reader side
+		pr := &c06Proto{cx: cx, sc: sc, isAcc: isAcc, memo: map[string]*c06CState{}, inprog: map[string]bool{},
+			reports: map[*ssa.Function]map[string]token.Pos{}, undec: map[*ssa.Function]string{}, checked: map[*ssa.Function]int{}}
+		entry := &c06CState{reached: true, old: 1<<uint(len(sc.caches)) - 1}
+		for _, fn := range sc.accessors {
+			isRoot := len(p.FuncValueUses(fn)) > 0 || fn.Parent() != nil
+			callers := p.StaticCallers(fn)
+			if len(callers) == 0 {
+				isRoot = true
+			}
+			for _, c := range callers {
+				if !isAcc[c.Fn] {
+					isRoot = true
+				}
+			}
+			if isRoot {
+				pr.analyse(fn, entry)
+			}
+		}
+		for _, fn := range sc.accessors {
+			if pr.checked[fn] == 0 {
+				pr.analyse(fn, entry)
+			}
+		}
+		for _, fn := range sc.accessors {
+			n++
+			construct := FuncKey(fn) + "#cache-protocol"
+			site := p.Pos(fn.Pos())
+			if why := pr.undec[fn]; why != "" {
+				r.Undecided(rule, construct, site, why)
+				continue
+			}
+			if len(pr.reports[fn]) == 0 {
+				r.OK(rule, construct, site, fmt.Sprintf("%s of %s: content that may date from an older generation is used only on the %s==%s edge, and %s is refreshed (from %s itself) only when every kept field was cleared, rebuilt, or is on that edge", strings.Join(sc.caches, "/"), tname, sc.stamp, sc.gen.field, sc.stamp, sc.gen.String()))
+				continue
+			}
+			var msgs []string
+			for m := range pr.reports[fn] {
+				msgs = append(msgs, m)
+			}
+			sort.Strings(msgs)
+			for _, m := range msgs {
+				r.Violation(rule, construct, p.Pos(pr.reports[fn][m]), m)
+			}
+		}
+
+		// the generation field must be an ordinary variable: read and assigned, never handed out
+		genEscapes := false
+		for _, fn := range cx.fns {
+			for _, b := range fn.Blocks {
+				for _, in := range b.Instrs {
+					fa, ok := in.(*ssa.FieldAddr)
+					if !ok || NamedOf(fa.X.Type()) != sc.gen.typ || fieldName(fa.X.Type(), fa.Field) != sc.gen.field || fa.Referrers() == nil {
+						continue
+					}
+					for _, ref := range *fa.Referrers() {
+						switch x := ref.(type) {
+						case *ssa.UnOp, *ssa.DebugRef:
+						case *ssa.Store:
+							if x.Addr != ssa.Value(fa) {
+								genEscapes = true
+							}
+						default:
+							genEscapes = true
+						}
+						if genEscapes {
+							n++
+							r.Undecided(rule, FuncKey(fn)+"#gen-store", p.Pos(fa.Pos()), "the address of "+sc.gen.String()+" is handed out (e.g. to sync/atomic): increments and reads of the generation can no longer be followed, the writer side of this rule is not evaluated")
+							break
+						}
+					}
+				}
+			}
+		}
+
+		// (S) the generation only grows
+		for _, fn := range cx.fns {
+			for _, b := range fn.Blocks {
+				for _, in := range b.Instrs {
+					st, ok := in.(*ssa.Store)
+					if !ok {
+						continue
+					}
+					isGen, incr, base := c06GenStore(st, sc.gen)
+					if !isGen {
+						continue
+					}
+					n++
+					construct := FuncKey(fn) + "#gen-store"
+					switch {
+					case c06Roots(base).onlyFresh():
+						r.OK(rule, construct, p.Pos(st.Pos()), "initialises "+sc.gen.String()+" of an object allocated here")
+					case incr:
+						r.OK(rule, construct, p.Pos(st.Pos()), sc.gen.String()+" is incremented by a positive constant")
+					case c06GenGoesBack(st, sc.gen):
+						r.Violation(rule, construct, p.Pos(st.Pos()), sc.gen.String()+" is reset or decreased on a live corpus: a generation that repeats makes "+tname+"."+sc.stamp+" match again after the corpus changed, and the stale cache is served")
+					default:
+						r.Undecided(rule, construct, p.Pos(st.Pos()), sc.gen.String()+" is assigned something other than itself plus a positive constant: it cannot be established that the generation never repeats (a repeat makes "+tname+"."+sc.stamp+" match again after changes)")
+					}
+				}
+			}
+		}
+
+		// compute side: what the cache content is computed from
+		comp := cx.buildCG(sc.accessors, true)
+		var unres []ssa.CallInstruction
+		for ci := range comp.unresolved {
+			unres = append(unres, ci)
+		}
+		sort.Slice(unres, func(i, j int) bool { return unres[i].Pos() < unres[j].Pos() })
+		for _, ci := range unres {
+			if !comp.feasible(ci.Block()) {
+				continue
+			}
+			r.Undecided(rule, FuncKey(ci.Parent())+"#compute-call", p.Pos(ci.Pos()), "a call made while computing the "+tname+" caches cannot be resolved ("+comp.unresolved[ci]+"): the set of locations the caches depend on is incomplete")
+		}
+		reads := comp.reads()
+		for l := range reads {
+			if l.typ == sc.typ || l == sc.gen {
+				delete(reads, l)
+			}
+		}
+		readBy := func(l c06Loc) ([]*ssa.Function, bool) {
+			if fs, ok := reads[l]; ok {
+				return fs, true
+			}
+			if l.field == "*" {
+				for rl, fs := range reads {
+					if rl.typ == l.typ {
+						return fs, true
+					}
+				}
+			}
+			return nil, false
+		}
+		{
+			var rl []string
+			for l := range reads {
+				rl = append(rl, l.String())
+			}
+			sort.Strings(rl)
+			r.Note("K-inval: the %s caches (stamp %s, generation %s) are computed from: %s", tname, sc.stamp, sc.gen, strings.Join(rl, " "))
+		}
+		r.Analysed("cache_compute_functions", len(comp.order))
+		r.Analysed("cache_read_locations", len(reads))
+
+		// no cache reader under the live or the load entry
+		{
+			n++
+			var bad []string
+			for _, f := range sc.accessors {
+				if live.funcs[f] {
+					bad = append(bad, c06FnName(f)+" (under addBlob)")
+				}
+				if load.funcs[f] {
+					bad = append(bad, c06FnName(f)+" (under scanFromStorage)")
+				}
+			}
+			if len(bad) == 0 {
+				r.OK(rule, FuncKey(addBlob)+"#no-cache-reader:"+tname, p.Pos(addBlob.Pos()), "no function that builds or serves the "+tname+" caches is reachable from addBlob or scanFromStorage: a cache is never stamped in the middle of an update")
+			} else {
+				// harmless after the last write of the update, wrong before it; the order is not analysed
+				r.Undecided(rule, FuncKey(addBlob)+"#no-cache-reader:"+tname, p.Pos(addBlob.Pos()), "the "+tname+" caches can be built while the corpus is being updated: "+strings.Join(bad, ", ")+"; what is built then is stamped with a generation that later writes of the same update may not change (#inval only requires one increment per update, before or after the writes), and whether writes can follow is not analysed")
+			}
+		}
+
+		// (W) writer side
+		if genEscapes {
+			continue
+		}
+		cv := &c06Cover{cx: cx, g: live, gen: sc.gen, root: addBlob, always: map[*ssa.Function]bool{}, memo: map[ssa.Instruction]*c06CovRes{}, inprog: map[ssa.Instruction]bool{}}
+		cv.computeAlways()
+		for ci, why := range live.unresolved {
+			r.Undecided(rule, FuncKey(ci.Parent())+"#live-call", p.Pos(ci.Pos()), "a call on the live path under addBlob cannot be resolved ("+why+"): writers of cache inputs may be missed")
+		}
+		type gkey struct {
+			fn  *ssa.Function
+			loc c06Loc
+		}
+		type grp struct {
+			sites []c06WSite
+		}
+		groups := map[gkey]*grp{}
+		var gorder []gkey
+		for _, s := range sites {
+			if s.undc != "" {
+				if live.funcs[s.fn] {
+					k := gkey{s.fn, c06Loc{}}
+					if groups[k] == nil {
+						groups[k] = &grp{}
+						gorder = append(gorder, k)
+					}
+					groups[k].sites = append(groups[k].sites, s)
+				}
+				continue
+			}
+			if _, ok := readBy(s.loc); !ok {
+				continue
+			}
+			k := gkey{s.fn, s.loc}
+			if groups[k] == nil {
+				groups[k] = &grp{}
+				gorder = append(gorder, k)
+			}
+			groups[k].sites = append(groups[k].sites, s)
+		}
+		sort.Slice(gorder, func(i, j int) bool {
+			a, b := gorder[i], gorder[j]
+			if FuncKey(a.fn) != FuncKey(b.fn) {
+				return FuncKey(a.fn) < FuncKey(b.fn)
+			}
+			if a.loc.typ == nil || b.loc.typ == nil {
+				return a.loc.typ == nil && b.loc.typ != nil
+			}
+			return a.loc.String() < b.loc.String()
+		})
+		nLive := 0
+		for _, k := range gorder {
+			g := groups[k]
+			first := g.sites[0]
+			site := p.Pos(first.in.Pos())
+			if k.loc.typ == nil {
+				n++
+				r.Undecided(rule, FuncKey(k.fn)+"#inval:?", site, "on the live path under addBlob, "+c06FnName(k.fn)+" "+first.how+" a reference that cannot be followed to the state it belongs to ("+first.undc+")")
+				continue
+			}
+			readers, _ := readBy(k.loc)
+			var rn []string
+			for _, f := range readers {
+				rn = append(rn, c06FnName(f))
+			}
+			sort.Strings(rn)
+			if len(rn) > 3 {
+				rn = append(rn[:3], "…")
+			}
+			switch {
+			case live.funcs[k.fn]:
+				n++
+				nLive++
+				construct := FuncKey(k.fn) + "#inval:" + k.loc.String()
+				bad := ""
+				okWhy := ""
+				for _, s := range g.sites {
+					res := cv.covered(s.in)
+					if !res.ok {
+						bad = res.why
+						site = p.Pos(s.in.Pos())
+						break
+					}
+					okWhy = res.why
+				}
+				if bad == "" {
+					r.OK(rule, construct, site, fmt.Sprintf("%s %s (read by %s when the %s caches are built): %s", first.how, k.loc, strings.Join(rn, ", "), tname, okWhy))
+				} else {
+					r.Violation(rule, construct, site, fmt.Sprintf("%s %s %s, which %s read(s) when the %s caches are built, on a path through addBlob on which %s is not incremented (%s): %s.%s still equals %s, so the live corpus keeps serving the permanode order computed before this write, while a corpus reloaded from the same rows computes it afresh",
+						c06FnName(k.fn), first.how, k.loc, strings.Join(rn, ", "), tname, sc.gen, bad, tname, sc.stamp, sc.gen.field))
+				}
+			case load.funcs[k.fn]:
+				n++
+				r.OKTable(rule, FuncKey(k.fn)+"#inval-load:"+k.loc.String(), site, "load path only (under scanFromStorage, which runs on a corpus allocated by its caller and not yet published: #load-on-fresh-corpus)")
+			default:
+				n++
+				r.Violation(rule, FuncKey(k.fn)+"#inval-outside:"+k.loc.String(), site, fmt.Sprintf("%s %s %s, which the %s caches are computed from, but is reachable neither from addBlob (where %s is incremented) nor from scanFromStorage (fresh corpus): the caches are not invalidated by this write", c06FnName(k.fn), first.how, k.loc, tname, sc.gen))
+			}
+		}
+		r.Analysed("live_cache_input_writers", nLive)
+		r.Analysed("live_path_functions", len(live.order))
+	}
+
+	// (L) the load entry runs on a corpus nobody has seen yet
+	for _, c := range p.StaticCallers(scanFn) {
+		n++
+		ok := false
+		if call, isCall := originValue(c.Args()[0]).(*ssa.Call); isCall && call.Parent() == c.Fn {
+			if mk := (CallSite{c.Fn, call}).Callee(); mk != nil && mk.Blocks != nil {
+				ok = true
+				for _, ri := range Returns(mk) {
+					for _, res := range ri.Results {
+						if NamedOf(res.Type()) == cx.tCorpus && !c06Fresh(res, mk) {
+							ok = false
+						}
+					}
+				}
+			}
+		}
+		r.Check(ok, rule, FuncKey(c.Fn)+"#load-on-fresh-corpus", p.Pos(c.Pos()),
+			"scanFromStorage runs on the Corpus its caller just allocated: no cache can have been built from it yet, so the load path needs no generation increment",
+			"scanFromStorage is run on a Corpus that is not freshly allocated in the caller: caches built earlier are not invalidated by the rows it merges (the load path does not touch the generation)")
+	}
+	if uses := p.FuncValueUses(scanFn); len(uses) > 0 {
+		r.Undecided(rule, FuncKey(scanFn)+"#value", p.Pos(uses[0].Pos()), "scanFromStorage is used as a function value")
+	}
+	n += c06RuleDerived(cx, live, all, sites)
+	r.Analysed("inval_obligations", n)
+	r.Floor(rule, 20)
+}
+
+// ---- eagerly maintained derived fields (PermanodeMeta.attr / .signer from .Claims)
+//
+// The anchor is the function the load path uses to (re)build the derived
+// fields: (*PermanodeMeta).restoreInvariants. D = the receiver fields it
+// assigns, S = the other receiver fields it reads. On the live path (building
+// == false), every write to an S field of an existing object must be followed,
+// on every path to a return of the writing function, by a call (same object) of
+// a method that writes a D field, or by a direct assignment of a D field.
+
+func c06RuleDerived(cx *c06Ctx, live, all *c06CG, sites []c06WSite) int {
+	const rule = "K-inval"
+	p, r := cx.p, cx.r
+	rest := p.Func(c06Rel, "PermanodeMeta", "restoreInvariants")
+	scanFn := p.Func(c06Rel, "Corpus", "scanFromStorage")
+	tPM := NamedOf(rest.Params[0].Type())
+	recv := ssa.Value(rest.Params[0])
+	D, S := map[string]bool{}, map[string]bool{}
+	for _, b := range rest.Blocks {
+		for _, in := range b.Instrs {
+			switch x := in.(type) {
+			case *ssa.Store:
+				if n, f, base, ok := c06FieldOf(x.Addr); ok && n == tPM && c06SamePlace(base, recv) {
+					D[f] = true
+				}
+			case *ssa.UnOp:
+				if x.Op == token.MUL {
+					if n, f, base, ok := c06FieldOf(x.X); ok && n == tPM && c06SamePlace(base, recv) {
+						S[f] = true
+					}
+				}
+			}
+		}
+	}
+	for f := range D {
+		delete(S, f)
+	}
+	n := 1
+	if len(D) == 0 || len(S) == 0 {
+		r.Undecided(rule, FuncKey(rest)+"#derived", p.Pos(rest.Pos()), "restoreInvariants no longer assigns receiver fields computed from other receiver fields: the derived-attribute clause has nothing to anchor on")
+		return n
+	}
+	dn, sn := strings.Join(c06Keys(D), "/"), strings.Join(c06Keys(S), "/")
+	r.OKTable(rule, FuncKey(rest)+"#derived", p.Pos(rest.Pos()), "load-time rebuild: PermanodeMeta."+dn+" is derived from PermanodeMeta."+sn)
+
+	// methods of PermanodeMeta from which a write of a D field is reachable
+	writesD := map[*ssa.Function]bool{}
+	for _, s := range sites {
+		if s.loc.typ == tPM && D[s.loc.field] {
+			writesD[s.fn] = true
+		}
+	}
+	for changed := true; changed; {
+		changed = false
+		for ci, callees := range all.out {
+			if all.callback[ci] || writesD[ci.Parent()] {
+				continue
+			}
+			for _, c := range callees {
+				if writesD[c] {
+					writesD[ci.Parent()] = true
+					changed = true
+				}
+			}
+		}
+	}
+	// Corpus.building is false whenever the live path runs
+	tCorpus := cx.tCorpus
+	{
+		n++
+		bad := ""
+		var falseStores []*ssa.Store
+		for _, fn := range cx.fns {
+			for _, b := range fn.Blocks {
+				for _, in := range b.Instrs {
+					st, ok := in.(*ssa.Store)
+					if !ok {
+						continue
+					}
+					nn, f, base, ok := c06FieldOf(st.Addr)
+					if !ok || nn != tCorpus || f != "building" || c06Roots(base).onlyFresh() {
+						continue
+					}
+					if fn != scanFn {
+						bad = c06FnName(fn) + " assigns Corpus.building outside scanFromStorage"
+					}
+					if c, isC := st.Val.(*ssa.Const); isC && c.Value != nil && c.Value.String() == "false" {
+						falseStores = append(falseStores, st)
+					}
+				}
+			}
+		}
+		if bad == "" {
+			for _, nr := range MaybeNilErrorReturns(scanFn) {
+				ok := false
+				for _, st := range falseStores {
+					if !Precedes(st, c06LastInstr(nr.From)) {
+						continue
+					}
+					ok = true
+					for in := range ReachableFrom(st, nil) {
+						if s2, isSt := in.(*ssa.Store); isSt {
+							if nn, f, _, isF := c06FieldOf(s2.Addr); isF && nn == tCorpus && f == "building" && s2 != st {
+								if c, isC := s2.Val.(*ssa.Const); !isC || c.Value == nil || c.Value.String() != "false" {
+									ok = false
+								}
+							}
+						}
+					}
+				}
+				if !ok {
+					bad = "scanFromStorage can return successfully with Corpus.building still true: the live path would skip keeping PermanodeMeta." + dn + " in step"
+				}
+			}
+		}
+		r.Check(bad == "", rule, FuncKey(scanFn)+"#building-false-when-live", p.Pos(scanFn.Pos()),
+			"Corpus.building is assigned only in scanFromStorage and is false on each of its success returns: the live path (addBlob) always runs with building == false", bad)
+	}
+	assume := func(cond ssa.Value) (bool, bool) {
+		neg := false
+		for {
+			if u, ok := cond.(*ssa.UnOp); ok && u.Op == token.NOT {
+				cond, neg = u.X, !neg
+				continue
+			}
+			break
+		}
+		if l, _, ok := c06DirectField(cond); ok && l.typ == tCorpus && l.field == "building" {
+			return true, neg // building is false
+		}
+		return false, false
+	}
+	type wsite struct {
+		fn   *ssa.Function
+		in   ssa.Instruction
+		base ssa.Value
+		f    string
+		how  string
+	}
+	var ws []wsite
+	for _, fn := range live.order {
+		for _, b := range fn.Blocks {
+			for _, in := range b.Instrs {
+				switch x := in.(type) {
+				case *ssa.Store:
+					if nn, f, base, ok := c06FieldOf(x.Addr); ok && nn == tPM && S[f] && !c06Roots(base).onlyFresh() {
+						ws = append(ws, wsite{fn, in, base, f, "assigns"})
+					}
+				case ssa.CallInstruction:
+					cc := x.Common()
+					f := cc.StaticCallee()
+					if f == nil {
+						continue
+					}
+					idx, isMut := c06Mutators[c06ExternalKey(f)]
+					if !isMut || idx >= len(cc.Args) {
+						continue
+					}
+					DependsOn(cc.Args[idx], func(v ssa.Value) bool {
+						if u, ok := v.(*ssa.UnOp); ok && u.Op == token.MUL {
+							if nn, fld, base, ok := c06FieldOf(u.X); ok && nn == tPM && S[fld] && !c06Roots(base).onlyFresh() {
+								ws = append(ws, wsite{fn, in, base, fld, "reorders"})
+								return true
+							}
+						}
+						return false
+					})
+				}
+			}
+		}
+	}
+	seen := map[string]bool{}
+	for _, w := range ws {
+		construct := FuncKey(w.fn) + "#derived:" + tPM.Obj().Name() + "." + w.f
+		fn, base := w.fn, w.base
+		leaks := LeakingExits(PathQuery{
+			Start: w.in,
+			Stop: func(in ssa.Instruction) bool {
+				switch x := in.(type) {
+				case *ssa.Store:
+					nn, f, b2, ok := c06FieldOf(x.Addr)
+					return ok && nn == tPM && D[f] && c06SamePlace(b2, base)
+				case *ssa.Call:
+					c := CallSite{fn, x}
+					callee := c.Callee()
+					if callee == nil || !writesD[callee] || callee.Signature.Recv() == nil || NamedOf(callee.Signature.Recv().Type()) != tPM {
+						return false
+					}
+					return c06SamePlace(c.Args()[0], base)
+				}
+				return false
+			},
+			Assume:       assume,
+			IgnorePanics: true,
+		})
+		if seen[construct] && len(leaks) == 0 {
+			continue
+		}
+		seen[construct] = true
+		n++
+		detail := ""
+		if len(leaks) > 0 {
+			detail = fmt.Sprintf("%s %s PermanodeMeta.%s of an existing permanode on the live path, and the return at line %d is reached (with building == false) without a call that brings PermanodeMeta.%s up to date for the same permanode: attribute look-ups (PermanodeAttrValue, the pnTime functions behind the sorted-permanode caches) answer from the stale %s, while a restart rebuilds it from all claims", c06FnName(w.fn), w.how, w.f, p.Fset.Position(leaks[0].Exit.Pos()).Line, dn, dn)
+		}
+		r.Check(len(leaks) == 0, rule, construct, p.Pos(w.in.Pos()),
+			"every path (building == false) from this write of PermanodeMeta."+w.f+" to a return passes a call, on the same permanode, of a method that updates PermanodeMeta."+dn+", or assigns it directly", detail)
+	}
+	if len(ws) == 0 {
+		r.Violation(rule, FuncKey(rest)+"#derived-writers", p.Pos(rest.Pos()), "no live write of PermanodeMeta."+sn+" found under addBlob: claims no longer reach the live corpus")
+	}
+	return n
 }
